@@ -332,6 +332,18 @@ func cloneCombined(m *ot.AdditiveOTSendRound1Message) [][]string { return combin
 
 func init() { register("ot", suiteOT) }
 
+// otHonestFailed: an HONEST run of a layer returned an error. The error is handed to the model as the observation; the
+// implementation side of the comparison is the claim (honest runs complete and satisfy the relation), which the model
+// denies on seeing the error - so the difference shows in the property fields, not only in the error text.
+func otHonestFailed(c *Ctx, op string, in J, err string, fields ...string) {
+	in["obsErr"] = err
+	impl := J{"recomputed": true, "err": ""}
+	for _, f := range fields {
+		impl[f] = true
+	}
+	c.Emit(op, in, impl)
+}
+
 func suiteOT(c *Ctx) {
 	otDeterministic(c)
 	otRandomOT(c)
@@ -564,7 +576,7 @@ func otSetupOps(c *Ctx) *otSetup {
 		nonce := c.Bytes(16)
 		st, in, err, side := runSetupLogged(c.Rng.Int63(), nonce, nil)
 		if err != nil {
-			c.Emit("setup", J{"nonce": hx(nonce)}, J{"recomputed": false, "rel": false, "err": side + ": " + err.Error()})
+			otHonestFailed(c, "setup", J{"nonce": hx(nonce)}, side+": "+err.Error(), "rel")
 			continue
 		}
 		c.Emit("setup", in, J{"recomputed": true, "rel": true, "err": ""})
@@ -595,7 +607,7 @@ func otLayers(c *Ctx, st *otSetup) {
 		msg, rres := ot.CorreOTReceive(H.Clone(), st.rs, choices)
 		sres, err := ot.CorreOTSend(H.Clone(), st.ss, 8*nb, msg)
 		if err != nil {
-			c.Emit("corre", J{"nonce": hx(nonce)}, J{"recomputed": false, "rel": false, "err": err.Error()})
+			otHonestFailed(c, "corre", J{"nonce": hx(nonce)}, err.Error(), "rel")
 			continue
 		}
 		_, Q := sres.VerifDump()
@@ -627,7 +639,7 @@ func otLayers(c *Ctx, st *otSetup) {
 			sres, err = ot.ExtendedOTSend(H.Clone(), st.ss, 8*nb, msg)
 		})
 		if err != nil {
-			c.Emit("ext", J{"nonce": hx(nonce), "kind": kind}, J{"recomputed": false, "check": false, "choice": false, "err": err.Error()})
+			otHonestFailed(c, "ext", J{"nonce": hx(nonce), "kind": kind}, err.Error(), "check", "choice")
 			continue
 		}
 		V0, V1 := sres.VerifDump()
@@ -710,7 +722,7 @@ func otLayers(c *Ctx, st *otSetup) {
 			continue
 		}
 		if err != nil {
-			c.Emit("additive", J{"nonce": hx(nonce), "kind": kind}, J{"recomputed": false, "sum": false, "err": err.Error()})
+			otHonestFailed(c, "additive", J{"nonce": hx(nonce), "kind": kind}, err.Error(), "sum")
 			continue
 		}
 		c.Emit("additive", J{"nonce": hx(nonce), "setup": st.asJSON, "choices": hx(choices), "kind": kind, "extra": hx(lr.log[0]),
@@ -753,7 +765,7 @@ func otMultiply(c *Ctx, st *otSetup) {
 		r := runMul(st, nonce, alpha, beta, c.Rng.Int63(), nil, func(m *ot.MultiplySendRound1Message) { comb = combinedHex(m.Msg) })
 		in := J{"nonce": hx(nonce), "setup": st.asJSON, "alpha": otScHex(alpha), "beta": otScHex(beta)}
 		if r.err != nil {
-			c.Emit("mul", in, J{"recomputed": false, "sum": false, "err": r.side + ": " + r.err.Error()})
+			otHonestFailed(c, "mul", in, r.side+": "+r.err.Error(), "sum")
 			continue
 		}
 		if len(r.log) != 3 || len(r.log[0]) != 32 || len(r.log[1]) != 52 || len(r.log[2]) != 26 {
